@@ -86,6 +86,8 @@ type Job struct {
 	Shards        int               `json:"shards,omitempty"`
 	ShardDepth    int               `json:"shard_depth,omitempty"`
 	RootPrefix    []Decision        `json:"root_prefix,omitempty"`
+	SetupEachPath bool              `json:"setup_each_path,omitempty"`
+	Gen           int               `json:"gen,omitempty"`
 	ShedMS        int               `json:"shed_ms,omitempty"`
 	Base          string            `json:"base,omitempty"`
 }
@@ -125,6 +127,8 @@ type JobResult struct {
 	SetupError     string            `json:"setup_error,omitempty"`
 	StoreMon       map[string]int    `json:"storemon,omitempty"`
 	Tasks          int               `json:"tasks,omitempty"`
+	Notes          []string          `json:"notes,omitempty"`
+	Gen            int               `json:"gen,omitempty"`
 	UninitGlobals  []string          `json:"uninit_globals,omitempty"`
 }
 
@@ -206,7 +210,23 @@ func describePanic(p interface{}) string {
 }
 
 // RunJob explores one harness.
+// RunJob explores one harness. The set-up function normally runs once and the
+// body once per path; that is sound only while the body does not change what
+// set-up built. If a replay diverges (the body did change it, e.g. a cache
+// inside the code under test), the job is run again with set-up repeated at
+// the start of every path.
 func (in *Interp) RunJob(job Job, shed func([][]Decision)) (res JobResult) {
+	res = in.runJob(job, shed, job.SetupEachPath)
+	res.Gen = job.Gen
+	if strings.HasPrefix(res.EngineError, "replay divergence") && job.Setup != "" && len(job.RootPrefix) == 0 && !job.SetupEachPath && shed == nil {
+		first := res.EngineError
+		res = in.runJob(job, nil, true)
+		res.Notes = append(res.Notes, "set-up repeated per path after: "+first)
+	}
+	return res
+}
+
+func (in *Interp) runJob(job Job, shed func([][]Decision), setupEachPath bool) (res JobResult) {
 	start := time.Now()
 	res.ID = job.ID
 	res.Params = job.Params
@@ -306,7 +326,15 @@ func (in *Interp) RunJob(job Job, shed func([][]Decision)) (res JobResult) {
 		}
 	}()
 
-	if job.Setup != "" {
+	var setupFn *ssa.Function
+	if job.Setup != "" && setupEachPath {
+		setupFn = pkg.Func(job.Setup)
+		if setupFn == nil {
+			res.EngineError = "no such setup function: " + job.Setup
+			return
+		}
+	}
+	if job.Setup != "" && !setupEachPath {
 		setup := pkg.Func(job.Setup)
 		if setup == nil {
 			res.EngineError = "no such setup function: " + job.Setup
@@ -344,6 +372,9 @@ func (in *Interp) RunJob(job Job, shed func([][]Decision)) (res JobResult) {
 	reached := map[string]bool{}
 	violSeen := map[string]int{}
 	ex.RunAll(func() {
+		if setupFn != nil {
+			call(in.i, nil, token.NoPos, setupFn, nil)
+		}
 		call(in.i, nil, token.NoPos, body, nil)
 	}, func(pr PathResult) {
 		if pr.Status == "othershard" {
